@@ -28,12 +28,14 @@ Example C16_wf_examples :
    opt_map wf_schema pool_explicit_query_only) = (Some true, Some true, Some true).
 Proof. vm_compute. reflexivity. Qed.
 (* ... and so are the others the correspondence run validates against: a schema without
-   declarations of @skip / @include, the pets schema, the one-type schema and the synthetic schema
-   of the bounded-exhaustive families; the schema that knows nothing is not (it is used by the
+   declarations of @skip / @include, the pets schema, the one-type schema, the synthetic schema
+   of the bounded-exhaustive families, the schema with decoy root names and the one with an
+   unimplemented interface; the schema that knows nothing is not (it is used by the
    traversal properties only) *)
 Example C16_wf_examples_more :
   (opt_map wf_schema pool_plain, opt_map wf_schema pool_pets, opt_map wf_schema pool_minimal,
-   opt_map wf_schema pool_synthetic) = (Some true, Some true, Some true, Some true).
+   opt_map wf_schema pool_synthetic, opt_map wf_schema pool_decoy, opt_map wf_schema pool_lonely)
+  = (Some true, Some true, Some true, Some true, Some true, Some true).
 Proof. vm_compute. reflexivity. Qed.
 Print Assumptions C16_wf_examples_more.
 Print Assumptions C16_wf_examples.
